@@ -1,20 +1,29 @@
-// Shim world for the WHOLE Searcher::visit_dir (Engine F; C01 / C06): a scripted file system of six nodes, no heap.
-//   0 = the root directory          1 = dir  in 0 (level 1)      2 = file in 0 (level 1)
+// Shim world for the WHOLE Searcher::visit_dir and ok_to_visit_dir (Engine F; C01 / C06 / C18): a scripted file system of ten nodes, no heap.
+//   0 = the root directory          1 = dir  in 0 (level 1)      2 = file in 0 (level 1; a zip archive with two members)
 //   3 = file in 1 (level 2)         4 = dir  in 1 (level 2)      5 = file in 4 (level 3)
+//   6 = symlink in 4 (level 3) -> directory 1, absolute target: a link to an ancestor (cycle)
+//   7 = symlink in 0 (level 1) -> directory 8, RELATIVE target (relative to the directory of the link)
+//   8 = a directory outside the root that lies LESS deep than the root        9 = file in 8
 // Paths are node ids; read_dir lists the children in the order above; check_file is a recorder that counts in `found` like the real one.
 use core::mem::MaybeUninit;
 pub use crate::query::TraversalMode;
 pub use crate::query::TraversalMode::Bfs;
-pub const N: usize = 6;
-pub const ROOT_DEPTH: u32 = 3;          // the root is /a/b/root
-pub const PARENT: [u8; N] = [0, 0, 0, 1, 1, 4];
-pub const IS_DIR: [bool; N] = [true, true, false, false, true, false];
-pub const LEVEL: [u32; N] = [0, 1, 1, 2, 2, 3];
-#[derive(Clone, Copy, PartialEq, Eq, Debug)] pub struct Path(pub u8);
+/*FS_TABLES*/
+// a path names a node; `1` = a relative link target that has not been joined with the directory of its link (it means nothing by itself)
+#[derive(Clone, Copy, PartialEq, Eq, Debug)] pub struct Path(pub u8, pub bool);
 #[derive(Clone, Copy, PartialEq, Eq, Debug)] pub struct PathBuf(pub Path);
+/*FS_PATHS*/
 impl core::ops::Deref for PathBuf { type Target = Path; fn deref(&self) -> &Path { &self.0 } }
-impl Path { pub fn to_path_buf(&self) -> PathBuf { PathBuf(*self) } pub fn to_string_lossy(&self) -> String { String(self.0) } }
-impl PathBuf { pub fn from(s: String) -> PathBuf { PathBuf(Path(s.0)) } }
+impl Path {
+    pub fn to_path_buf(&self) -> PathBuf { PathBuf(*self) }
+    pub fn to_string_lossy(&self) -> String { String(self.0) }
+    pub fn parent(&self) -> Option<&Path> { let p = PARENT[self.0 as usize]; if self.1 || p == 255 || self.0 == 0 { None } else { Some(&PATHS[p as usize]) } }
+    pub fn is_relative(&self) -> bool { self.1 }
+    // joining a relative target with the directory of its link gives the node the link points to
+    pub fn join(&self, rel: PathBuf) -> PathBuf { PathBuf(Path(rel.0 .0, false)) }
+    pub fn canonicalize(&self) -> io::Result<PathBuf> { if self.1 { Err(IoError) } else { Ok(PathBuf(*self)) } }
+}
+impl PathBuf { pub fn from(s: String) -> PathBuf { PathBuf(Path(s.0, false)) } }
 #[derive(Clone, Copy, PartialEq, Eq, Debug)] pub struct String(pub u8);
 impl String {
     pub fn from(_s: &str) -> String { String(255) }
@@ -26,8 +35,8 @@ pub fn error_message(_a: &String, _b: &str) {}
 pub fn path_error_message(_p: &Path, _e: IoError) {}
 pub mod util_shim {
     use super::*;
-    pub fn canonical_path(p: &PathBuf) -> Result<String, String> { Ok(String(p.0 .0)) }
-    pub fn calc_depth(s: &String) -> u32 { ROOT_DEPTH + LEVEL[s.0 as usize] }
+    pub fn canonical_path(p: &PathBuf) -> Result<String, String> { if p.0 .1 { Err(String(255)) } else { Ok(String(p.0 .0)) } }
+    pub fn calc_depth(s: &String) -> u32 { CDEPTH[s.0 as usize] }
 }
 #[derive(Debug)] pub struct IoError;
 pub mod io { pub type Result<T> = core::result::Result<T, super::IoError>; }
@@ -35,8 +44,9 @@ pub mod io { pub type Result<T> = core::result::Result<T, super::IoError>; }
 impl FileType { pub fn is_dir(&self) -> bool { self.dir } pub fn is_symlink(&self) -> bool { self.link } }
 #[derive(Clone, Copy)] pub struct DirEntry(pub u8);
 impl DirEntry {
-    pub fn path(&self) -> PathBuf { PathBuf(Path(self.0)) }
-    pub fn file_type(&self) -> io::Result<FileType> { Ok(FileType { dir: IS_DIR[self.0 as usize], link: false }) }
+    pub fn path(&self) -> PathBuf { PathBuf(Path(self.0, false)) }
+    pub fn file_type(&self) -> io::Result<FileType> { Ok(FileType { dir: IS_DIR[self.0 as usize], link: IS_LINK[self.0 as usize] }) }
+    pub fn ino(&self) -> u64 { self.0 as u64 }
 }
 pub struct ReadDir { pub dir: u8, pub next: u8 }
 impl Iterator for ReadDir { type Item = io::Result<DirEntry>;
@@ -47,12 +57,12 @@ impl Iterator for ReadDir { type Item = io::Result<DirEntry>;
 pub struct File;
 pub mod fs {
     use super::*;
-    pub fn read_dir(p: &Path) -> io::Result<ReadDir> { Ok(ReadDir { dir: p.0, next: 1 }) }
+    pub fn read_dir(p: &Path) -> io::Result<ReadDir> { if p.1 || !IS_DIR[p.0 as usize] { Err(IoError) } else { Ok(ReadDir { dir: p.0, next: 1 }) } }
     pub struct File;
     // node 2 is a zip archive with two members
     impl File { pub fn open(p: &PathBuf) -> io::Result<super::File> { if p.0 .0 == 2 { Ok(super::File) } else { Err(IoError) } } }
 }
-pub mod std { pub mod fs { use super::super::*; pub fn read_link(_p: &PathBuf) -> io::Result<PathBuf> { Err(IoError) } } }
+pub mod std { pub mod fs { use super::super::*; pub fn read_link(p: &PathBuf) -> io::Result<PathBuf> { let n = p.0 .0 as usize; if IS_LINK[n] { Ok(PathBuf(Path(TARGET[n], TARGET_RELATIVE[n]))) } else { Err(IoError) } } } }
 pub mod zip { use super::*; pub struct ZipFile(pub u8); pub struct ZipArchive;
     impl ZipArchive { pub fn new(_f: File) -> Result<ZipArchive, ()> { Ok(ZipArchive) } pub fn len(&self) -> usize { 2 } pub fn by_index(&mut self, i: usize) -> Result<ZipFile, ()> { Ok(ZipFile(i as u8 + 1)) } } }
 pub struct FileInfo(pub u8);
@@ -62,24 +72,24 @@ impl Repository { pub fn is_path_ignored(&self, _p: &PathBuf) -> Result<bool, ()
 pub struct Filters;
 pub fn matches_hgignore_filter(_f: &Filters, _s: &String) -> bool { false }
 pub fn matches_dockerignore_filter(_f: &Filters, _s: &String) -> bool { false }
+pub struct InoSet { pub seen: [bool; N] }
+impl InoSet { pub fn contains(&self, i: &u64) -> bool { self.seen[*i as usize] } pub fn insert(&mut self, i: u64) -> bool { let was = self.seen[i as usize]; self.seen[i as usize] = true; !was } }
 pub struct Set { pub seen: [bool; N] }
 impl Set { pub fn contains(&self, p: &PathBuf) -> bool { self.seen[p.0 .0 as usize] } pub fn insert(&mut self, p: PathBuf) -> bool { let was = self.seen[p.0 .0 as usize]; self.seen[p.0 .0 as usize] = true; !was } }
-pub struct Queue { pub items: [u8; N], pub head: usize, pub tail: usize }
+pub struct Queue { pub items: [(u8, bool); N], pub head: usize, pub tail: usize }
 impl Queue {
-    pub fn push_back(&mut self, p: PathBuf) { if self.tail < N { self.items[self.tail] = p.0 .0; self.tail += 1; } else { kani::assume(false); } }
-    pub fn pop_front(&mut self) -> Option<PathBuf> { if self.head < self.tail { let v = self.items[self.head]; self.head += 1; Some(PathBuf(Path(v))) } else { None } }
+    pub fn push_back(&mut self, p: PathBuf) { if self.tail < N { self.items[self.tail] = (p.0 .0, p.0 .1); self.tail += 1; } else { kani::assume(false); } }
+    pub fn pop_front(&mut self) -> Option<PathBuf> { if self.head < self.tail { let v = self.items[self.head]; self.head += 1; Some(PathBuf(Path(v.0, v.1))) } else { None } }
     pub fn is_empty(&self) -> bool { self.head == self.tail }
 }
 pub struct Query { pub limit: u32 }
-pub struct Searcher { pub query: Query, pub found: u32, pub buffered: bool, pub current_follow_symlinks: bool, pub visited_dirs: Set, pub visited_entries: [bool; N],
+pub struct Searcher { pub query: Query, pub found: u32, pub buffered: bool, pub current_follow_symlinks: bool, pub visited_dirs: Set, pub visited_inodes: InoSet,
                       pub dir_queue: Queue, pub error_count: i32, pub hgignore_filters: Filters, pub dockerignore_filters: Filters,
-                      pub log: [u8; 8], pub n: usize }
+                      pub log: [u8; 12], pub n: usize }
 impl Searcher {
     pub fn is_buffered(&self) -> bool { self.buffered }
     pub fn is_zip_archive(&self, s: &String) -> bool { s.0 == 2 }
     // stands for check_file with no WHERE clause: every entry handed over is counted (C06.found.accounting) and recorded
     // an archive member is recorded as 10 * member + entry
-    pub fn check_file(&mut self, e: &DirEntry, fi: &Option<FileInfo>) -> io::Result<bool> { let code = match fi { Some(m) => 10 * m.0 + e.0, None => e.0 }; if self.n < 8 { self.log[self.n] = code; self.n += 1; } self.found += 1; Ok(true) }
-    // stands for ok_to_visit_dir (C01.ok_to_visit): a directory is entered once
-    pub fn ok_to_visit_dir(&mut self, e: &DirEntry, _t: FileType) -> bool { let was = self.visited_entries[e.0 as usize]; self.visited_entries[e.0 as usize] = true; !was }
+    pub fn check_file(&mut self, e: &DirEntry, fi: &Option<FileInfo>) -> io::Result<bool> { let code = match fi { Some(m) => 10 * m.0 + e.0, None => e.0 }; if self.n < 12 { self.log[self.n] = code; self.n += 1; } self.found += 1; Ok(true) }
 }
